@@ -6,7 +6,9 @@
 #include "ledger.hpp"
 
 #include <cstdint>
+#include <cstdlib>
 #include <map>
+#include <string>
 
 namespace env
 {
@@ -311,6 +313,20 @@ struct VT<W8>
 {
     static W8 make(int x) { return W8{static_cast<u8>(x)}; }
     static int read(const W8& v) { return v.v; }
+    static constexpr bool tracked = false;
+};
+// std::string with short (small-string-optimised) contents: the object points into itself, so it is the classic type
+// that must not be relocated with memcpy although nothing but its address changes
+using Str = std::string;
+template <>
+struct VT<Str>
+{
+    static Str make(int x) { return "s" + std::to_string(x); }
+    static int read(const Str& v)
+    {
+        if (v.size() < 2 || v.size() > 6 || v[0] != 's') return -4;
+        return std::atoi(v.c_str() + 1);
+    }
     static constexpr bool tracked = false;
 };
 template <>
